@@ -50,6 +50,7 @@ CONSTANTS Hosts,       \* subject hosts: integers > 1
           NReqs,       \* requests 1..NReqs, started in this order
           MaxId,       \* stream ids 0..MaxId; at most MaxId requests in flight per connection
           Keyspaces,   \* keyspaces a USE may name (strings)
+          SpecMax,     \* max_attempts of the ConstantSpeculativeExecutionPolicy (idempotent statements only)
           Rots         \* rotations of the query plan (subset of 0..2)
 
 VARIABLES cs, mode, peers, budget, phase, hreq, hact,      \* the variables of Hosts.tla
@@ -59,15 +60,21 @@ VARIABLES cs, mode, peers, budget, phase, hreq, hact,      \* the variables of H
                    \*   inst   its pool is the one in session._pools[h] (FALSE: popped, or replaced)
                    \*   ks     Connection.keyspace ("" = none)
                    \*   sig    Connection.signaled_error
-                   \*   reg    {<<sid, r>>}: handler of request r registered under stream id sid (Connection._requests)
+                   \*   reg    {<<sid, r, f>>}: handler of request r registered under stream id sid (Connection._requests);
+                   \*          f = "X": the request itself (QUERY / EXECUTE, handler _set_result), f = "P": the PREPARE of
+                   \*          its re-preparation (handler: submit _execute_after_prepare)
                    \*   orph   orphaned_request_ids: ids of timed-out requests, reserved until the late answer
-                   \*   owed   {<<sid, r>>}: the node still holds request r's frame received on stream sid
+                   \*   owed   {<<sid, r, f>>}: the node still holds that frame, received on stream sid
+                   \*   hold   PREPAREs answered whose _execute_after_prepare task has not yet returned the connection
                    \*   tko    ids of requests that timed out when their pool was gone: handler removed, id not orphaned
                    \*   leak   in-flight slots never given back (the late answers to tko ids recycle the id only)
           rq,      \* per request: st new|open|done, out (outcome: "none", "ok", or the exception class), n (callback +
                    \*   errback invocations), att (attempts <<h, c, sid, connection keyspace, session keyspace>>),
-                   \*   plan (hosts of the query plan not yet taken), p0 (ghost: the whole plan), timer (armed),
-                   \*   use ("" or the keyspace of USE)
+                   \*   plan (hosts of the query plan not yet taken), p0 (ghost: the whole plan),
+                   \*   timer ("off" | "spec": next speculative execution | "to": client timeout), sl (speculative
+                   \*   executions the plan still grants), errs (hosts in ResponseFuture._errors),
+                   \*   use ("" or the keyspace of USE), prep (a bound prepared statement), lc / lid (the connection the
+                   \*   future borrowed last / the stream id send_request got last: ResponseFuture._connection, _req_id)
           sks,     \* Session.keyspace ("" = none)
           act      \* last action
 hvars == <<cs, mode, peers, budget, phase, hreq, hact>>
@@ -84,6 +91,9 @@ H == INSTANCE Hosts WITH Known0 <- Hosts, Sessions <- {1}, Ignored <- {}, Env <-
                          FineUp <- FALSE, req <- hreq, act <- hact
 
 TRetry(r) == H!T("Retry", 0, 0, "", FALSE, FALSE, r)        \* ResponseFuture._retry_task in the executor
+TRep(r, h) == H!T("Reprepare", 0, h, "", FALSE, FALSE, r)   \* ResponseFuture._reprepare(prepare_message, host, ..)
+TAfter(r, c, h, resp) == H!T("AfterPrep", c, h, resp, FALSE, FALSE, r)   \* ResponseFuture._execute_after_prepare(host, connection c,
+                                                                         \* pool, response); resp: same | diff | error | connerr
 HostKinds == {"OnDown", "AddPool", "PoolShut", "Recon", "ReconConn", "OnUp", "OnUpCont", "RemoveHost", "RefreshIf",
               "CtlReconnect", "CtlSet"}
 
@@ -95,12 +105,14 @@ W0 == [hs |-> H!Cur, cn |-> conns, rq |-> rq, sks |-> sks]
 Commit(w) == cs' = w.hs /\ conns' = w.cn /\ rq' = w.rq /\ sks' = w.sks
 
 NewConn(h, ks) == [h |-> h, open |-> TRUE, inst |-> TRUE, ks |-> ks, sig |-> FALSE, reg |-> {}, orph |-> {}, owed |-> {},
-                   tko |-> {}, leak |-> 0]
-NewReq == [st |-> "new", out |-> "none", n |-> 0, att |-> <<>>, plan |-> <<>>, p0 |-> <<>>, timer |-> FALSE, use |-> ""]
+                   tko |-> {}, leak |-> 0, hold |-> 0]
+NewReq == [st |-> "new", out |-> "none", n |-> 0, att |-> <<>>, plan |-> <<>>, p0 |-> <<>>, timer |-> "off", sl |-> 0,
+           errs |-> {}, use |-> "", prep |-> FALSE, lc |-> 0, lid |-> -1]
+Failed(q) == q.out \notin {"none", "ok"}                     \* ResponseFuture._final_exception is set
 
 InstOf(cn, h) == {c \in 1..Len(cn) : cn[c].inst /\ cn[c].h = h}
 InUse(k) == {x[1] : x \in k.reg} \cup k.orph \cup k.tko              \* ids not in Connection.request_ids
-Infl(k) == Cardinality(k.reg) + Cardinality(k.orph) + Cardinality(k.tko) + k.leak            \* Connection.in_flight
+Infl(k) == Cardinality(k.reg) + Cardinality(k.orph) + Cardinality(k.tko) + k.leak + k.hold   \* Connection.in_flight
 
 (* ResponseFuture._query can use the host: its pool is installed and open, a stream is free (borrow_connection) *)
 Usable(w, h) == /\ w.hs.pools[1][h] = "open"
@@ -114,39 +126,49 @@ FirstUsable(w, p) == IF p = <<>> THEN 0
 (* _set_final_result / _set_final_exception: once only; the timer is cancelled; callbacks / errbacks run *)
 Complete(w, r, out) ==
     IF w.rq[r].st = "done" THEN w
-    ELSE [w EXCEPT !.rq[r].st = "done", !.rq[r].out = out, !.rq[r].n = @ + 1, !.rq[r].timer = FALSE]
+    ELSE [w EXCEPT !.rq[r].st = "done", !.rq[r].out = out, !.rq[r].n = @ + 1, !.rq[r].timer = "off"]
 
 (* ResponseFuture.send_request over the rest of the plan; sid is the stream id the connection hands out *)
 SidOK(w, p, sid) == LET i == FirstUsable(w, p) IN
                     IF i = 0 THEN sid = 0
                     ELSE sid \notin InUse(w.cn[CHOOSE c \in InstOf(w.cn, p[i]) : TRUE])
-Send(w, r, p, sid) ==
+\* loud: send_request() - NoHostAvailable when no host can be used; quiet: send_request(error_no_hosts=False)
+Send(w, r, p, sid, loud) ==
     LET i == FirstUsable(w, p) IN
-    IF i = 0 THEN Complete([w EXCEPT !.rq[r].plan = <<>>], r, "NoHostAvailable")
+    IF i = 0 THEN LET w1 == [w EXCEPT !.rq[r].plan = <<>>, !.rq[r].errs = @ \cup {p[j] : j \in 1..Len(p)}] IN
+                  IF loud THEN Complete(w1, r, "NoHostAvailable") ELSE w1
     ELSE LET h == p[i]
              c == CHOOSE x \in InstOf(w.cn, h) : TRUE
-         IN [w EXCEPT !.rq[r].st = "open",
+         IN [w EXCEPT !.rq[r].st = IF @ = "done" THEN @ ELSE "open",
+                      !.rq[r].errs = @ \cup {p[j] : j \in 1..(i - 1)},              \* every skipped host leaves its error
                       !.rq[r].plan = SubSeq(p, i + 1, Len(p)),
                       !.rq[r].att = Append(@, <<h, c, sid, w.cn[c].ks, w.sks>>),
-                      !.cn[c].reg = @ \cup {<<sid, r>>},
-                      !.cn[c].owed = @ \cup {<<sid, r>>}]
+                      !.rq[r].lc = c, !.rq[r].lid = sid,
+                      !.cn[c].reg = @ \cup {<<sid, r, "X">>},
+                      !.cn[c].owed = @ \cup {<<sid, r, "X">>}]
 SentBy(w, p) == LET i == FirstUsable(w, p) IN
                 IF i = 0 THEN <<>> ELSE <<p[i], CHOOSE x \in InstOf(w.cn, p[i]) : TRUE>>
 
 (* RetryPolicy.on_request_error -> RETRY_NEXT_HOST -> ResponseFuture._retry -> session.submit(_retry_task) *)
-SubmitRetry(w, r, sessShut) ==
-    IF sessShut \/ w.rq[r].st = "done" THEN w ELSE [w EXCEPT !.hs = H!Submit(@, TRetry(r))]
+\* (_retry gives up only when the future has failed; a request a speculative execution already answered is retried all the same)
+SubmitRetry(w, r, h, sessShut) ==
+    LET w1 == [w EXCEPT !.rq[r].errs = @ \cup {h}] IN           \* _handle_retry_decision: self._errors[host] = the error
+    IF sessShut \/ Failed(w.rq[r]) THEN w1 ELSE [w1 EXCEPT !.hs = H!Submit(@, TRetry(r))]
 
 (* A pool connection closes (defunct, or closed by pool.shutdown()): error_all_requests hands every registered    *)
 (* request a ConnectionShutdown; _set_result returns the connection to its pool, which signals the failure once   *)
 (* (conviction policy: host down -> Cluster.on_down submitted) and the retry policy sends the request on.         *)
+(* A PREPARE registered there only has its _execute_after_prepare task submitted with the error (the connection is  *)
+(* handed back by that task).                                                                                      *)
 CloseConn(w, c, sessShut) ==
     LET k  == w.cn[c]
-        rs == {x[2] : x \in k.reg}
+        rs == {x[2] : x \in {y \in k.reg : y[3] = "X"}}
+        ps == {x[2] : x \in {y \in k.reg : y[3] = "P"}}
         w1 == [w EXCEPT !.cn[c] = [k EXCEPT !.open = FALSE, !.reg = {}, !.orph = {}, !.owed = {}, !.tko = {}, !.leak = 0,
-                                             !.sig = (k.sig \/ rs # {})]]
+                                             !.hold = 0, !.sig = (k.sig \/ rs # {})]]
         w2 == IF rs # {} /\ ~k.sig THEN [w1 EXCEPT !.hs = H!SubmitOnDown(@, k.h, FALSE, FALSE)] ELSE w1
-    IN H!Fold(LAMBDA x, r : SubmitRetry(x, r, sessShut), w2, rs)
+        w3 == H!Fold(LAMBDA x, r : SubmitRetry(x, r, k.h, sessShut), w2, rs)
+    IN H!Fold(LAMBDA x, r : IF sessShut THEN x ELSE [x EXCEPT !.hs = H!Submit(@, TAfter(r, c, k.h, "connerr"))], w3, ps)
 
 SortedSeq(S) == LET it[X \in SUBSET S] == IF X = {} THEN <<>> ELSE <<H!Min(X)>> \o it[X \ {H!Min(X)}] IN it[S]
 Rotate(s, k) == IF s = <<>> THEN s ELSE LET n == k % Len(s) IN SubSeq(s, n + 1, Len(s)) \o SubSeq(s, 1, n)
@@ -160,14 +182,20 @@ Init ==
     /\ act = A("Init", 0, 0, 0, "", <<>>)
 
 (* session.execute_async(query, timeout=..); the plan is the live hosts in address order, rotated *)
-StartReq(r, rot, use, sid) ==
+\* ResponseFuture._start_timer: the next speculative execution if the plan grants one, else the client timeout
+StartTimer(w, r) == IF w.rq[r].sl > 0 THEN [w EXCEPT !.rq[r].timer = "spec", !.rq[r].sl = @ - 1]
+                    ELSE [w EXCEPT !.rq[r].timer = "to"]
+
+StartReq(r, rot, use, idem, prep, sid) ==
     /\ rq[r].st = "new" /\ \A q \in 1..(r - 1) : rq[q].st # "new"
     /\ phase = 0 \/ H!Returned
     /\ use # "" => (phase = 0 /\ \A q \in Reqs : ~(rq[q].use # "" /\ rq[q].st = "open"))      \* one keyspace switch at a time
+    /\ use # "" => ~idem
+    /\ prep => (use = "" /\ ~idem)
     /\ LET p  == Rotate(SortedSeq(cs.lbpLive), rot)
-           w1 == [W0 EXCEPT !.rq[r].p0 = p, !.rq[r].timer = TRUE, !.rq[r].use = use]
+           w1 == StartTimer([W0 EXCEPT !.rq[r].p0 = p, !.rq[r].use = use, !.rq[r].prep = prep, !.rq[r].sl = IF idem THEN SpecMax ELSE 0], r)
        IN /\ SidOK(w1, p, sid)
-          /\ Commit(Send(w1, r, p, sid))
+          /\ Commit(Send(w1, r, p, sid, TRUE))
           /\ act' = A("StartReq", r, 0, sid, use, SentBy(w1, p))
     /\ UNCHANGED <<mode, peers, budget, phase, hreq, hact>>
 
@@ -177,18 +205,33 @@ SwitchKeyspace(w, ks) ==
     [w EXCEPT !.sks = ks,
               !.cn = [c \in 1..Len(@) |-> IF @[c].inst /\ @[c].open THEN [@[c] EXCEPT !.ks = ks] ELSE @[c]]]
 
-(* the node answers the frame it holds on connection c, stream sid (loop thread: process_msg, _set_result) *)
-Answer(c, sid, r, kind) ==
-    /\ c \in 1..Len(conns) /\ conns[c].open /\ <<sid, r>> \in conns[c].owed
-    /\ kind = "setks" <=> rq[r].use # ""
-    /\ kind = "setks" => \A d \in 1..Len(conns) : (conns[d].inst /\ conns[d].open) => Infl(conns[d]) < MaxId
-    /\ LET w1 == [W0 EXCEPT !.cn[c].owed = @ \ {<<sid, r>>}] IN
-       IF <<sid, r>> \in conns[c].reg
-       THEN LET w2 == [w1 EXCEPT !.cn[c].reg = @ \ {<<sid, r>>}] IN         \* handler popped, connection returned, id recycled
-            Commit(CASE kind = "rows"       -> Complete(w2, r, "ok")
-                     [] kind = "invalid"    -> Complete(w2, r, "InvalidRequest")
-                     [] kind = "overloaded" -> SubmitRetry(w2, r, phase >= 2)
-                     [] kind = "setks"      -> Complete(SwitchKeyspace(w2, rq[r].use), r, "ok"))
+(* the node answers the frame it holds on connection c, stream sid (loop thread: process_msg and the handler) *)
+Answer(c, sid, r, f, kind) ==
+    /\ c \in 1..Len(conns) /\ conns[c].open /\ <<sid, r, f>> \in conns[c].owed
+    /\ f = "X" => kind \in {"rows", "invalid", "overloaded", "setks", "unprepared"}
+    /\ f = "P" => kind \in {"same", "diff", "error"}
+    /\ kind = "setks" <=> (f = "X" /\ rq[r].use # "")
+    /\ kind = "unprepared" => rq[r].prep
+    \* (set_keyspace_async spins on the loop thread until the connection has a free slot: a full connection would hang
+    \*  the switch; the environment modelled here answers a USE only when every pool connection can take one more request)
+    /\ kind = "setks" => \A d \in 1..Len(conns) : (conns[d].inst /\ conns[d].open) =>
+                               Infl(conns[d]) - (IF d = c /\ <<sid, r, f>> \in conns[c].reg THEN 1 ELSE 0) < MaxId
+    /\ LET w1 == [W0 EXCEPT !.cn[c].owed = @ \ {<<sid, r, f>>}]
+           h  == conns[c].h IN
+       IF <<sid, r, f>> \in conns[c].reg
+       THEN LET w2 == [w1 EXCEPT !.cn[c].reg = @ \ {<<sid, r, f>>}] IN         \* handler popped, id recycled
+            IF f = "X"
+            THEN \* _set_result: the connection goes back to its pool, then by kind of answer
+                 Commit(CASE kind = "rows"       -> Complete(w2, r, "ok")
+                          [] kind = "invalid"    -> Complete(w2, r, "InvalidRequest")
+                          [] kind = "overloaded" -> SubmitRetry(w2, r, h, phase >= 2)
+                          [] kind = "setks"      -> Complete(SwitchKeyspace(w2, rq[r].use), r, "ok")
+                          [] kind = "unprepared" -> IF phase >= 2 THEN w2                      \* session.submit(_reprepare, ..)
+                                                    ELSE [w2 EXCEPT !.hs = H!Submit(@, TRep(r, h))])
+            ELSE \* the PREPARE's handler: session.submit(_execute_after_prepare, host, connection, pool, response); the
+                 \* connection stays borrowed until that task runs
+                 Commit(IF phase >= 2 THEN [w2 EXCEPT !.cn[c].hold = @ + 1]
+                        ELSE [w2 EXCEPT !.cn[c].hold = @ + 1, !.hs = H!Submit(@, TAfter(r, c, h, kind))])
        ELSE \* the request timed out meanwhile: the answer releases the id, nobody is told (an id that was not
             \* orphaned - pool gone at the time - is recycled without giving its in-flight slot back)
             IF sid \in conns[c].orph THEN Commit([w1 EXCEPT !.cn[c].orph = @ \ {sid}])
@@ -197,36 +240,97 @@ Answer(c, sid, r, kind) ==
     /\ UNCHANGED <<mode, peers, budget, phase, hreq, hact>>
 
 (* the node will never answer *)
-Drop(c, sid, r) ==
-    /\ c \in 1..Len(conns) /\ conns[c].open /\ <<sid, r>> \in conns[c].owed
-    /\ Commit([W0 EXCEPT !.cn[c].owed = @ \ {<<sid, r>>}])
+Drop(c, sid, r, f) ==
+    /\ c \in 1..Len(conns) /\ conns[c].open /\ <<sid, r, f>> \in conns[c].owed
+    /\ Commit([W0 EXCEPT !.cn[c].owed = @ \ {<<sid, r, f>>}])
     /\ act' = A("Drop", r, c, sid, "", <<>>)
     /\ UNCHANGED <<mode, peers, budget, phase, hreq, hact>>
 
-(* ResponseFuture._on_timeout (loop thread) *)
-FireTimer(r) ==
-    /\ rq[r].st = "open" /\ rq[r].timer
-    /\ LET a   == rq[r].att[Len(rq[r].att)]
-           c   == a[2]
-           sid == a[3]
-           w1  == IF conns[c].open /\ <<sid, r>> \in conns[c].reg
-                  THEN IF cs.pools[1][a[1]] = "open"              \* session._pools.get(current host) and not pool.is_shutdown
-                       THEN [W0 EXCEPT !.cn[c].reg = @ \ {<<sid, r>>}, !.cn[c].orph = @ \cup {sid}]
-                       ELSE [W0 EXCEPT !.cn[c].reg = @ \ {<<sid, r>>}, !.cn[c].tko = @ \cup {sid}]
-                  ELSE W0                                          \* handler already gone (connection failed, retry pending)
-       IN Commit(Complete(w1, r, "OperationTimedOut"))
-    /\ act' = A("FireTimer", r, 0, 0, "", <<>>)
+(* a timer of the request fires (loop thread): ResponseFuture._on_speculative_execute or ResponseFuture._on_timeout *)
+FireTimer(r, sid) ==
+    /\ rq[r].st = "open" /\ rq[r].timer # "off"
+    /\ IF rq[r].timer = "spec"
+       THEN \* one more execution on the next host that can take it (none: nothing is sent, nothing fails), next timer
+            /\ SidOK(W0, rq[r].plan, sid)
+            /\ Commit(StartTimer(Send(W0, r, rq[r].plan, sid, FALSE), r))
+            /\ act' = A("FireTimer", r, 0, sid, "spec", SentBy(W0, rq[r].plan))
+       ELSE \* the handler this future registered under (_connection, _req_id) - if it is still there - is removed and the
+            \* stream id orphaned; handlers of other executions (speculative, re-sent after a re-prepare) stay registered.
+            \* INTENDED: only the future's own handler.  (The pinned code pops whatever is registered under that id: see
+            \* findings/C09_timeout_pops_handler_of_request_reusing_the_stream_id.py.)
+            /\ sid = 0
+            /\ LET c   == rq[r].lc
+                   s0  == rq[r].lid
+                   w1  == IF conns[c].open /\ <<s0, r, "X">> \in conns[c].reg
+                          THEN IF cs.pools[1][conns[c].h] = "open"  \* session._pools.get(current host) and not pool.is_shutdown
+                               THEN [W0 EXCEPT !.cn[c].reg = @ \ {<<s0, r, "X">>}, !.cn[c].orph = @ \cup {s0}]
+                               ELSE [W0 EXCEPT !.cn[c].reg = @ \ {<<s0, r, "X">>}, !.cn[c].tko = @ \cup {s0}]
+                          ELSE W0                                  \* handler already gone (answered, connection failed, ..)
+               IN Commit(Complete(w1, r, "OperationTimedOut"))
+            /\ act' = A("FireTimer", r, 0, 0, "to", <<>>)
     /\ UNCHANGED <<mode, peers, budget, phase, hreq, hact>>
 
 (* executor: ResponseFuture._retry_task *)
 ExecRetry(r, sid) ==
     /\ TRetry(r) \in DOMAIN cs.exec
     /\ LET w1 == [W0 EXCEPT !.hs.exec = H!BagDel(@, TRetry(r))] IN
-       IF rq[r].st = "done"
+       IF Failed(rq[r])
        THEN sid = 0 /\ Commit(w1) /\ act' = A("Exec", r, 0, 0, "Retry", <<>>)
        ELSE /\ SidOK(w1, rq[r].plan, sid)
-            /\ Commit(Send(w1, r, rq[r].plan, sid))
+            /\ Commit(Send(w1, r, rq[r].plan, sid, TRUE))
             /\ act' = A("Exec", r, 0, sid, "Retry", SentBy(w1, rq[r].plan))
+    /\ UNCHANGED <<mode, peers, budget, phase, hreq, hact>>
+
+(* executor: ResponseFuture._reprepare - PREPARE to the host that answered UNPREPARED, on a newly borrowed stream; *)
+(* no connection to be had there: the original request goes to the next host                                      *)
+ExecReprepare(r, h, sid) ==
+    /\ TRep(r, h) \in DOMAIN cs.exec
+    /\ LET w1 == [W0 EXCEPT !.hs.exec = H!BagDel(@, TRep(r, h))] IN
+       IF Usable(w1, h)
+       THEN LET c == CHOOSE x \in InstOf(conns, h) : TRUE IN
+            /\ sid \notin InUse(conns[c])
+            /\ Commit([w1 EXCEPT !.rq[r].lc = c, !.cn[c].reg = @ \cup {<<sid, r, "P">>}, !.cn[c].owed = @ \cup {<<sid, r, "P">>}])
+            /\ act' = A("Exec", r, c, sid, "Reprepare", <<>>)
+       ELSE /\ SidOK(w1, rq[r].plan, sid)
+            /\ Commit(Send([w1 EXCEPT !.rq[r].errs = @ \cup {h}], r, rq[r].plan, sid, TRUE))
+            /\ act' = A("Exec", r, 0, sid, "Reprepare", SentBy(w1, rq[r].plan))
+    /\ UNCHANGED <<mode, peers, budget, phase, hreq, hact>>
+
+(* executor: ResponseFuture._execute_after_prepare(host, connection c, pool, response) *)
+ExecAfter(t, sid) ==
+    /\ t \in DOMAIN cs.exec /\ t.k = "AfterPrep"
+    /\ LET r    == t.n
+           c    == t.s
+           h    == t.h
+           resp == t.kind
+           k    == conns[c]
+           w0   == [W0 EXCEPT !.hs.exec = H!BagDel(@, t)]
+           \* pool.return_connection(connection): the slot is given back; a closed connection nobody has signalled yet is
+           \* signalled now (conviction: Cluster.on_down submitted)
+           w1   == IF k.open THEN [w0 EXCEPT !.cn[c].hold = IF @ > 0 THEN @ - 1 ELSE 0]
+                   ELSE IF k.sig THEN w0
+                   ELSE [w0 EXCEPT !.cn[c].sig = TRUE, !.hs = H!SubmitOnDown(@, h, FALSE, FALSE)]
+       IN IF Failed(rq[r])
+          THEN sid = 0 /\ Commit(w1) /\ act' = A("Exec", r, c, 0, "AfterPrep", <<>>)
+          ELSE CASE resp = "same" ->
+                      \* the original request again, same host, whatever stream id it is given (_req_id is not updated)
+                      IF Usable(w1, h)
+                      THEN LET d == CHOOSE x \in InstOf(w1.cn, h) : TRUE IN
+                           /\ sid \notin InUse(w1.cn[d])
+                           /\ Commit([w1 EXCEPT !.rq[r].att = Append(@, <<h, d, sid, w1.cn[d].ks, w1.sks>>), !.rq[r].lc = d,
+                                                !.cn[d].reg = @ \cup {<<sid, r, "X">>}, !.cn[d].owed = @ \cup {<<sid, r, "X">>}])
+                           /\ act' = A("Exec", r, c, sid, "AfterPrep", <<h, d>>)
+                      ELSE /\ SidOK(w1, rq[r].plan, sid)
+                           /\ Commit(Send([w1 EXCEPT !.rq[r].errs = @ \cup {h}], r, rq[r].plan, sid, TRUE))
+                           /\ act' = A("Exec", r, c, sid, "AfterPrep", SentBy(w1, rq[r].plan))
+                 [] resp = "diff" ->
+                      sid = 0 /\ Commit(Complete(w1, r, "DriverException")) /\ act' = A("Exec", r, c, 0, "AfterPrep", <<>>)
+                 [] resp = "error" ->
+                      sid = 0 /\ Commit(Complete(w1, r, "InvalidRequest")) /\ act' = A("Exec", r, c, 0, "AfterPrep", <<>>)
+                 [] resp = "connerr" ->
+                      /\ SidOK(w1, rq[r].plan, sid)
+                      /\ Commit(Send([w1 EXCEPT !.rq[r].errs = @ \cup {h}], r, rq[r].plan, sid, TRUE))
+                      /\ act' = A("Exec", r, c, sid, "AfterPrep", SentBy(w1, rq[r].plan))
     /\ UNCHANGED <<mode, peers, budget, phase, hreq, hact>>
 
 (* executor: a task of the host-state machinery (Hosts.tla), with what it does to pool connections:            *)
@@ -288,12 +392,16 @@ ShutdownA         == H!ShutdownA /\ HostStep("ShutdownA", "")
 ShutdownE         == H!ShutdownE /\ HostStep("ShutdownE", "")
 
 Next ==
-    \/ \E r \in Reqs, rot \in Rots, use \in Keyspaces \cup {""}, sid \in Ids : StartReq(r, rot, use, sid)
-    \/ \E c \in 1..Len(conns) : \E x \in conns[c].owed, kind \in {"rows", "invalid", "overloaded", "setks"} :
-           Answer(c, x[1], x[2], kind)
-    \/ \E c \in 1..Len(conns) : \E x \in conns[c].owed : Drop(c, x[1], x[2])
-    \/ \E r \in Reqs : FireTimer(r)
+    \/ \E r \in Reqs, rot \in Rots, use \in Keyspaces \cup {""}, idem \in BOOLEAN, prep \in BOOLEAN, sid \in Ids :
+           StartReq(r, rot, use, idem, prep, sid)
+    \/ \E c \in 1..Len(conns) : \E x \in conns[c].owed :
+           \E kind \in {"rows", "invalid", "overloaded", "setks", "unprepared", "same", "diff", "error"} :
+               Answer(c, x[1], x[2], x[3], kind)
+    \/ \E c \in 1..Len(conns) : \E x \in conns[c].owed : Drop(c, x[1], x[2], x[3])
+    \/ \E r \in Reqs, sid \in Ids : FireTimer(r, sid)
     \/ \E r \in Reqs, sid \in Ids : ExecRetry(r, sid)
+    \/ \E r \in Reqs, h \in AllHosts, sid \in Ids : ExecReprepare(r, h, sid)
+    \/ \E t \in DOMAIN cs.exec, sid \in Ids : ExecAfter(t, sid)
     \/ \E t \in DOMAIN cs.exec : ExecHost(t)
     \/ \E e \in DOMAIN cs.sched : Fire(e)
     \/ \E c \in 1..Len(conns) : Kill(c)
@@ -315,7 +423,8 @@ C14_OneOutcome ==
     \A r \in Reqs : /\ rq[r].n <= 1
                     /\ (rq[r].st = "done") <=> (rq[r].n = 1)
                     /\ (rq[r].st = "done") <=> (rq[r].out # "none")
-                    /\ rq[r].st = "done" => ~rq[r].timer
+                    /\ rq[r].st = "done" => rq[r].timer = "off"
+                    /\ rq[r].st = "open" => rq[r].timer # "off"          \* (C15) an open request always has a timer armed
 
 (* C09: a response is only ever delivered to the request sent on that (connection, stream) *)
 C09_StreamsNotShared ==
@@ -339,8 +448,14 @@ C17_PlanOrder ==
             pos(h) == IF \E i \in 1..Len(rq[r].p0) : rq[r].p0[i] = h
                       THEN CHOOSE i \in 1..Len(rq[r].p0) : rq[r].p0[i] = h ELSE 0
         IN /\ \A i \in 1..Len(hs) : \E j \in 1..Len(rq[r].p0) : rq[r].p0[j] = hs[i]
-           /\ \A i, j \in 1..Len(hs) : i < j => pos(hs[i]) < pos(hs[j])
+           /\ \A i, j \in 1..Len(hs) : i < j => (pos(hs[i]) < pos(hs[j]) \/ (rq[r].prep /\ hs[i] = hs[j]))   \* twice only when
+                                                                                                      \* re-sent after a re-prepare
            /\ \A i \in 1..Len(rq[r].plan) : \A j \in 1..Len(hs) : pos(rq[r].plan[i]) > pos(hs[j])
+C17_ErrorMap ==                     \* every host the request was sent to or skipped, and no other, can be in its error map
+    \A r \in Reqs : /\ rq[r].errs \subseteq {rq[r].p0[i] : i \in 1..Len(rq[r].p0)}
+                    /\ rq[r].errs \cap {rq[r].plan[i] : i \in 1..Len(rq[r].plan)} = {}
+                    /\ rq[r].out = "NoHostAvailable" =>
+                           rq[r].errs \cup {rq[r].att[i][1] : i \in 1..Len(rq[r].att)} = {rq[r].p0[i] : i \in 1..Len(rq[r].p0)}
 C17_LivePool ==
     act.sent # <<>> => /\ conns[act.sent[2]].h = act.sent[1]
                        /\ conns[act.sent[2]].inst /\ conns[act.sent[2]].open
@@ -351,8 +466,9 @@ C17_LivePool ==
 Waiting(r) == \E c \in 1..Len(conns) : \E x \in conns[c].reg : x[2] = r
 C10_NoneLeftPending ==
     /\ \A c \in 1..Len(conns) : ~conns[c].open => (conns[c].reg = {} /\ conns[c].owed = {})
-    /\ \A r \in Reqs : rq[r].st = "open" => (Waiting(r) \/ TRetry(r) \in DOMAIN cs.exec \/ phase >= 2)
-    /\ \A r \in Reqs : rq[r].st # "open" => ~Waiting(r)
+    /\ \A r \in Reqs : rq[r].st = "open" =>
+           (Waiting(r) \/ phase >= 2 \/ \E t \in DOMAIN cs.exec : t.k \in {"Retry", "Reprepare", "AfterPrep"} /\ t.n = r)
+    /\ \A r \in Reqs : rq[r].st = "new" => ~Waiting(r)
 
 (* C25: a down host has exactly one live reconnector once the executor is idle, never two; none after shutdown *)
 C25_Reconnectors ==
@@ -365,6 +481,12 @@ C45_Shutdown ==
                   /\ H!NOpen = 0
 C45_Refused ==
     (act.name = "StartReq" /\ phase = 3) => (rq[act.r].out = "NoHostAvailable" /\ rq[act.r].att = <<>>)
+
+(* C19 (composition): the original request of a re-preparation is re-sent once, to the host that was re-prepared *)
+C19_ResentOnce ==
+    (act.name = "Exec" /\ act.x = "AfterPrep" /\ act.sent # <<>>) =>
+        /\ rq[act.r].att # <<>>
+        /\ rq[act.r].att[Len(rq[act.r].att)][1] = act.sent[1] /\ rq[act.r].att[Len(rq[act.r].att)][2] = act.sent[2]
 
 (* C20: after a successful USE every attempt goes out on a connection in that keyspace *)
 C20_KeyspaceFollows ==
@@ -389,5 +511,10 @@ Witness_HostBackUp == ~(\E h \in Hosts : cs.wentDown[h] /\ cs.up[h] = "T" /\
                           \E c, d \in 1..Len(conns) : c < d /\ conns[c].h = h /\ conns[d].h = h /\ conns[d].inst /\ conns[d].open)
 Witness_KeyspaceSwitched == ~(sks # "" /\ \E r \in Reqs : rq[r].att # <<>> /\ rq[r].att[Len(rq[r].att)][4] = sks /\ rq[r].use = "")
 Witness_RefusedAfterShutdown == ~(phase = 3 /\ \E r \in Reqs : rq[r].out = "NoHostAvailable" /\ rq[r].att = <<>>)
+Witness_SpeculativeWon == ~(\E r \in Reqs : rq[r].out = "ok" /\ Len(rq[r].att) >= 2 /\ Waiting(r))
+Witness_RetryAfterSuccess == ~(act.name = "Exec" /\ act.x = "Retry" /\ act.sent # <<>> /\ rq[act.r].out = "ok")
+Witness_Reprepared == ~(\E r \in Reqs : rq[r].prep /\ rq[r].out = "ok" /\ Len(rq[r].att) >= 2
+                                         /\ rq[r].att[1][1] = rq[r].att[2][1] /\ rq[r].att[2][3] = 0)
+Witness_PrepareLostConnection == ~(act.name = "Exec" /\ act.x = "AfterPrep" /\ act.sent # <<>> /\ ~conns[act.c].open)
 Witness_LostAtShutdown == ~(phase >= 2 /\ \E r \in Reqs : rq[r].st = "open" /\ ~Waiting(r))
 =============================================================================
